@@ -17,7 +17,8 @@ earlier; both returned), anchored at every call site (CAM and VAM reception) at 
 BEFORE truncation; GenerationDeltaTime.__sub__ = (a - b) mod 65536, and no sender code ordering two
 generationDeltaTime values other than through that difference; (f) report-keys: in the CAM / VAM transmission modules every report['k']
 read is dominated by a presence test of that key, so a report lacking an optional field cannot raise KeyError, and no
-numeric report field is tested for truthiness (a measured 0 is a measurement, not a missing value).
+numeric report field is tested for truthiness (a measured 0 is a measurement, not a missing value), and a value taken from the
+report is stored under presence tests of its own field(s) only (a present field is mapped whatever else is missing).
 (a)-(d), (f) are the conditions under which the encoder or builder raises, wraps or silently drops a value.
 Does not decide bit-exact UPER output, truncation vs rounding of int(), nor "no report stalls generation" beyond (f)
 and the re-arming rule of C10.
